@@ -53,7 +53,13 @@ pub fn stably_spelled(d: &Decoded, text: &str) -> bool {
         clean: bool,
     }
     let mut seen: HashMap<String, Vec<Occ>> = HashMap::new();
+    let array_headers: Vec<bool> = d.stmts.iter().filter_map(|s| if let Stmt::Header { array, .. } = s { Some(*array) } else { None }).collect();
+    let mut header_no = 0;
     for (prefix, segs, is_header) in key_paths(d) {
+        let is_array_header = is_header && {
+            header_no += 1;
+            array_headers[header_no - 1]
+        };
         let mut id = prefix.clone();
         let n = if is_header { segs.len() } else { segs.len() - 1 };
         for (i, seg) in segs[..n].iter().enumerate() {
@@ -63,7 +69,12 @@ pub fn stably_spelled(d: &Decoded, text: &str) -> bool {
             let is_last = i + 1 == segs.len();
             // leading whitespace of a path is stored with the path's last key
             let leading = is_last && segs[0].ws_before.1 > segs[0].ws_before.0;
-            let clean = !ws_a && !(i > 0 && ws_b) && !leading;
+            // the last segment of a header is the table's own ("leaf") occurrence: the blanks
+            // inside the brackets are kept in the key's leaf decor, which is not used when the same
+            // key is printed as an interior segment of another path - so they cannot leak
+            // (the elements of an array of tables share one key, so `[[ t ]]` is not exempt)
+            let own_header = is_header && is_last && !is_array_header;
+            let clean = (!ws_a || own_header) && !(i > 0 && ws_b) && (!leading || own_header);
             seen.entry(id.clone()).or_default().push(Occ { raw: text[seg.span.0..seg.span.1].to_string(), clean });
         }
     }
